@@ -28,6 +28,14 @@ class Interp(Exec, Joins, Exprs, Subs, Calls, Methods, Assume):
         self.modvals = {}
         self.regex_cache = {}
         self.memo = {}
+        # module-level dicts that some function stores into: their membership tests are history dependent
+        self.memo_names = set()
+        for mn_, m_ in self.prog.mods.items():
+            for n_ in ast.walk(m_.tree):
+                if isinstance(n_, ast.Assign):
+                    for t_ in n_.targets:
+                        if isinstance(t_, ast.Subscript) and isinstance(t_.value, ast.Name) and t_.value.id in m_.assign_nodes:
+                            self.memo_names.add((mn_, t_.value.id))
         pat = self.derive_isdigits_pattern()
         import os
         if os.environ.get('SA_ISDIGITS_FIX'):
